@@ -283,6 +283,26 @@ func (c *Ctx) extObj(path, name string) types.Object {
 	return o
 }
 
+// extField looks up a field of a struct type declared in a dependency package.
+func (c *Ctx) extField(path, typ, field string) *types.Var {
+	o := c.extObj(path, typ)
+	if o == nil {
+		return nil
+	}
+	st, ok := o.Type().Underlying().(*types.Struct)
+	if !ok {
+		c.unresolved("%s.%s is not a struct", path, typ)
+		return nil
+	}
+	for i := 0; i < st.NumFields(); i++ {
+		if st.Field(i).Name() == field {
+			return st.Field(i)
+		}
+	}
+	c.unresolved("field %s.%s.%s", path, typ, field)
+	return nil
+}
+
 // ---- output ----
 
 type KnownFinding struct {
